@@ -111,6 +111,33 @@ pub fn boundary_words() -> Vec<u32> {
     v
 }
 
+/// Number of head digits in front of the tail for the tail families (shapes 6, 7, 8: tie / below / above;
+/// 10: trailing zeros; 14: binary tail), as `digits_of` places it; for other shapes a position inside the string
+pub fn tail_cut(spec: &DigSpec) -> u64 {
+    let len = spec.len.max(1);
+    (match spec.shape % SHAPES.len() as u8 {
+        6 | 7 | 8 => {
+            let len = len.max(3);
+            1 + (spec.aux as usize % (len - 2))
+        }
+        10 => {
+            let len = len.max(2);
+            1 + (spec.aux as usize % (len - 1))
+        }
+        14 => {
+            let len = len.max(8);
+            1 + (spec.aux as usize % (len - 2).max(1)).min(len - 3)
+        }
+        _ => {
+            if len >= 3 {
+                1 + (spec.aux as usize % (len - 2))
+            } else {
+                1
+            }
+        }
+    }) as u64
+}
+
 /// Materialise an unsigned digit string (no leading zeros; "0" possible only for shape small)
 pub fn digits_of(spec: &DigSpec) -> String {
     let len = spec.len.max(1);
